@@ -106,43 +106,7 @@ func (s *Server) aofshrink() {
 								return false
 							}
 							// here we fill the values array with a new command
-							values = values[:0]
-							values = append(values, "set")
-							values = append(values, keys[0])
-							values = append(values, o.ID())
-							o.Fields().Scan(func(f field.Field) bool {
-								if !f.Value().IsZero() {
-									values = append(values, "field")
-									values = append(values, f.Name())
-									values = append(values, shrinkFieldValue(f.Value()))
-								}
-								return true
-							})
-							if o.Expires() != 0 {
-								ttl := math.Floor(float64(o.Expires()-now)/float64(time.Second)*10) / 10
-								if ttl < 0.1 {
-									// always leave a little bit of ttl.
-									ttl = 0.1
-								}
-								values = append(values, "ex")
-								values = append(values, strconv.FormatFloat(ttl, 'f', -1, 64))
-							}
-							if rect, ok := o.Geo().(*geojson.Rect); ok {
-								// SET ... BOUNDS: as a polygon it would come back as
-								// a different kind of object
-								r := rect.Base()
-								values = append(values, "bounds",
-									strconv.FormatFloat(r.Min.Y, 'f', -1, 64),
-									strconv.FormatFloat(r.Min.X, 'f', -1, 64),
-									strconv.FormatFloat(r.Max.Y, 'f', -1, 64),
-									strconv.FormatFloat(r.Max.X, 'f', -1, 64))
-							} else if objIsSpatial(o.Geo()) {
-								values = append(values, "object")
-								values = append(values, string(o.Geo().AppendJSON(nil)))
-							} else {
-								values = append(values, "string")
-								values = append(values, o.Geo().String())
-							}
+							values = appendSetCommand(values[:0], keys[0], o, now)
 
 							// append the values to the aof buffer
 							aofbuf = append(aofbuf, '*')
@@ -360,4 +324,46 @@ func shrinkFieldValue(v field.Value) string {
 		return v.Data()
 	}
 	return v.JSON()
+}
+
+// appendSetCommand appends the SET command that recreates object o of
+// collection key as it is at time now (unix nanoseconds).
+func appendSetCommand(values []string, key string, o *object.Object, now int64) []string {
+	values = append(values, "set")
+	values = append(values, key)
+	values = append(values, o.ID())
+	o.Fields().Scan(func(f field.Field) bool {
+		if !f.Value().IsZero() {
+			values = append(values, "field")
+			values = append(values, f.Name())
+			values = append(values, shrinkFieldValue(f.Value()))
+		}
+		return true
+	})
+	if o.Expires() != 0 {
+		ttl := math.Floor(float64(o.Expires()-now)/float64(time.Second)*10) / 10
+		if ttl < 0.1 {
+			// always leave a little bit of ttl.
+			ttl = 0.1
+		}
+		values = append(values, "ex")
+		values = append(values, strconv.FormatFloat(ttl, 'f', -1, 64))
+	}
+	if rect, ok := o.Geo().(*geojson.Rect); ok {
+		// SET ... BOUNDS: as a polygon it would come back as
+		// a different kind of object
+		r := rect.Base()
+		values = append(values, "bounds",
+			strconv.FormatFloat(r.Min.Y, 'f', -1, 64),
+			strconv.FormatFloat(r.Min.X, 'f', -1, 64),
+			strconv.FormatFloat(r.Max.Y, 'f', -1, 64),
+			strconv.FormatFloat(r.Max.X, 'f', -1, 64))
+	} else if objIsSpatial(o.Geo()) {
+		values = append(values, "object")
+		values = append(values, string(o.Geo().AppendJSON(nil)))
+	} else {
+		values = append(values, "string")
+		values = append(values, o.Geo().String())
+	}
+	return values
 }
